@@ -416,10 +416,11 @@ _WORDS = ["apple", "bravo", "cargo", "delta", "ember", "fable", "gamma", "hotel"
 class Names:
     """Unique, recognisable names: every declaration gets its own token so that stubs can be searched for it."""
 
-    def __init__(self, rng) -> None:
+    def __init__(self, rng, p_multiword: float = 0.0) -> None:
         self.rng = rng
         self.n = 0
         self.last: dict = {}
+        self.p_multiword = p_multiword
 
     def fresh(self, prefix: str = "", private: bool = False, dunder: bool = False, cls: bool = False) -> str:
         w = _WORDS[self.n % len(_WORDS)] + str(self.n // len(_WORDS) or "")
@@ -430,6 +431,12 @@ class Names:
         if prev and self.rng.random() < 0.25:
             base = (prev + "x" + str(self.n)) if self.rng.random() < 0.5 else ("q" + str(self.n) + prev)
         self.last[prefix] = base
+        if not cls and not dunder and self.p_multiword and self.rng.random() < self.p_multiword:
+            # ordinary snake_case names of several words (they change under naming conversion), some with a number part
+            more = [_WORDS[self.rng.randrange(len(_WORDS))] for _ in range(self.rng.choice([1, 1, 2]))]
+            if self.rng.random() < 0.2:
+                more.append(str(self.rng.randint(0, 99)))
+            base = "_".join([base, *more])
         if cls:
             base = base[0].upper() + base[1:]
         if dunder:
@@ -449,6 +456,7 @@ class GenCfg:
     p_private_mod: float = 0.25
     p_private_decl: float = 0.25
     p_dunder: float = 0.08
+    p_multiword: float = 0.3  # share of snake_case names of several words (functions, parameters, attributes, modules, packages, aliases)
     p_reexport: float = 0.35
     reexport_forms: tuple = ("name-rel-parent", "name-abs-parent", "name-abs-ancestor", "alias-rel-parent", "alias-abs-ancestor", "star-rel-parent", "modalias-rel-parent")
     n_modules: tuple = (3, 7)
@@ -471,7 +479,7 @@ class GenCfg:
 
 
 def random_pkg(rng, cfg: GenCfg) -> Pkg:
-    names = Names(rng)
+    names = Names(rng, cfg.p_multiword)
     pkg = Pkg()
     # package tree
     pkgs = [("pk",)]
